@@ -114,7 +114,13 @@ pub fn run_check(id: &str, tier: Tier) -> i32 {
                 // reference peer: uploads to an h2 server, content checked by position
                 parts.push(run_engine(&FlowEngine, &ctx, scale(tier, 12_000, 200_000)));
             }
-            parts.push(run_engine(&PairEngine { focus: Focus::Coop }, &ctx, scale(tier, 12_000, 300_000)));
+            if id == "C01" {
+                // (a legal message that makes the receiving h2 accuse the sending h2 of a protocol violation was not delivered
+                // as sent: an encoding the peer cannot read)
+                parts.push(run_engine(&runner::Reattributed { inner: PairEngine { focus: Focus::Coop }, from: "C09", to: "C01", label: "not-delivered", only: "legal-exchange-accused" }, &ctx, scale(tier, 12_000, 300_000)));
+            } else {
+                parts.push(run_engine(&PairEngine { focus: Focus::Coop }, &ctx, scale(tier, 12_000, 300_000)));
+            }
             if parts.iter().all(|p| p.failure.is_none()) {
                 // (C06: programs with resets and drops are judged for lost wake-ups only — stuck, and complete once re-polled)
                 parts.push(run_engine(&PairEngine { focus: Focus::Resets }, &ctx, scale(tier, 8_000, 200_000)));
@@ -164,7 +170,9 @@ pub fn run_check(id: &str, tier: Tier) -> i32 {
         "C03" => {
             parts.push(run_engine(&FlowEngine, &ctx, scale(tier, 30_000, 300_000)));
             if parts.iter().all(|p| p.failure.is_none()) {
-                parts.push(run_engine(&PairEngine { focus: Focus::Resets }, &ctx, scale(tier, 12_000, 200_000)));
+                // (with every handle gone and the connection idle nothing may still be counted as in flight: the idle-state
+                // verdict of C19 about received bytes is a leaked receive window)
+                parts.push(run_engine(&runner::Reattributed { inner: PairEngine { focus: Focus::Resets }, from: "C19", to: "C03", label: "idle", only: "recv-in-flight-not-zero" }, &ctx, scale(tier, 12_000, 200_000)));
             }
             if parts.iter().all(|p| p.failure.is_none()) {
                 parts.push(run_engine(&PairEngine { focus: Focus::Coop }, &ctx, scale(tier, 6_000, 100_000)));
